@@ -414,13 +414,24 @@ func UtxoValidateInsufficientCollateral(
 	if fee == nil {
 		fee = new(big.Int)
 	}
-	minCollateral := new(
+	// The collateral balance is what the inputs hold minus what is returned
+	if collReturn := tx.CollateralReturn(); collReturn != nil {
+		if returnAmount := collReturn.Amount(); returnAmount != nil {
+			totalCollateral.Sub(totalCollateral, returnAmount)
+		}
+	}
+	// Required: balance * 100 >= fee * collateralPercentage, compared exactly
+	// (dividing first would round in the transaction's favour)
+	feeShare := new(
 		big.Int,
 	).Mul(fee, new(big.Int).SetUint64(uint64(tmpPparams.CollateralPercentage)))
-	minCollateral.Div(minCollateral, big.NewInt(100))
-	if totalCollateral.Cmp(minCollateral) >= 0 {
+	scaledCollateral := new(big.Int).Mul(totalCollateral, big.NewInt(100))
+	if scaledCollateral.Cmp(feeShare) >= 0 {
 		return nil
 	}
+	// minCollateral = ceil(fee * collateralPercentage / 100)
+	minCollateral := new(big.Int).Add(feeShare, big.NewInt(99))
+	minCollateral.Div(minCollateral, big.NewInt(100))
 	// Convert to uint64 for error struct (best effort)
 	var providedU, requiredU uint64
 	if totalCollateral.IsUint64() {
